@@ -2,7 +2,8 @@
    ConstImpedance.cpp, CollimatorImpedance.cpp, Impedance.cpp, ImpedanceFactory.cpp. Do not edit.
    Leaves (E : Leaves K): l_pw = std::pow, l_sq = std::sqrt, l_lg = std::log, l_ab = std::abs,
    l_pi = boost pi<double>(), l_c = physcons::c, l_Z0 = Impedance::Z0, l_ltb/l_leb/l_eqb = <, <=, ==,
-   l_cadd = std::complex<float>::operator+, l_PP = ParallelPlatesCSR(n, f0, f_max, g) (not translated). *)
+   l_cadd = std::complex<float>::operator+, l_PPs = sample i of ParallelPlatesCSR(n, f0, f_max, g) (Airy functions:
+   the value is not translated, only the loop that stores it). *)
 From Coq Require Import List ZArith Bool.
 From Inovesa Require Import Base.FieldKit Model.Impedance Model.ImpKit.
 Import ListNotations.
@@ -62,13 +63,23 @@ Definition ConstImpedance_calc (K : Fld) (E : Leaves K) (n : Z) (Z' : cpx K) : l
 Definition ConstImpedance_ctor (K : Fld) (E : Leaves K) (n : Z) (f_max : K) (Z' : cpx K) : list (cpx K) :=
   ConstImpedance_calc K E n Z'.
 
+(* ParallelPlatesCSR::__calcImpedance (src/Z/ParallelPlatesCSR.cpp) - loop skeleton only, the sample value is the leaf l_PPs *)
+Definition ParallelPlatesCSR_calc (K : Fld) (E : Leaves K) (nfreqs : Z) (f0 : K) (f_max : K) (g : K) : list (cpx K) :=
+  let rv := (fill nfreqs (0, 0)) in
+  let rv := for_upd 1%Z ((nfreqs / 2%Z)%Z + 1)%Z (fun (i : Z) (rv : list (cpx K)) => setz rv i (l_PPs E nfreqs f0 f_max g i)) rv in
+  rv.
+
+(* ParallelPlatesCSR::ParallelPlatesCSR (src/Z/ParallelPlatesCSR.cpp): the vector handed to Impedance(z, f_max) *)
+Definition ParallelPlatesCSR_ctor (K : Fld) (E : Leaves K) (nfreqs : Z) (f0 : K) (f_max : K) (g : K) : list (cpx K) :=
+  ParallelPlatesCSR_calc K E nfreqs f0 f_max g.
+
 (* CollimatorImpedance::CollimatorImpedance (src/Z/CollimatorImpedance.cpp): the arguments handed to ConstImpedance *)
 Definition CollimatorImpedance_ctor (K : Fld) (E : Leaves K) (n : Z) (f_max : K) (outer : K) (inner : K) : list (cpx K) :=
   ConstImpedance_ctor K E n f_max ((((l_Z0 E) / (l_pi E)) * (l_lg E (outer / inner))), 0).
 
 (* vfps::makeImpedance (src/Z/ImpedanceFactory.cpp); impedance_file = None for the empty name *)
 Definition makeImpedance_with (K : Fld) (E : Leaves K)
-    (PP' : Z -> K -> K -> K -> list (cpx K)) (FreeSpaceCSR_ctor' : Z -> K -> K -> list (cpx K))
+    (ParallelPlatesCSR_ctor' : Z -> K -> K -> K -> list (cpx K)) (FreeSpaceCSR_ctor' : Z -> K -> K -> list (cpx K))
     (ResistiveWall_ctor' : Z -> K -> K -> K -> K -> K -> K -> list (cpx K))
     (CollimatorImpedance_ctor' : Z -> K -> K -> K -> list (cpx K))
     (nfreqs : Z) (fmax : K) (R_bend : K) (frev : K) (gap : K) (use_csr : bool) (s : K) (xi : K) (inner_coll_radius : K) (impedance_file : option (list (cpx K))) : option (list (cpx K)) :=
@@ -82,7 +93,7 @@ Definition makeImpedance_with (K : Fld) (E : Leaves K)
           let impedance_changed := true in
           let '(rv, impedance_changed) :=
             if (l_ltb E 0 gap) then
-              let rv := deref_add (add_assign K E) rv (PP' nfreqs f0 fmax gap) in
+              let rv := deref_add (add_assign K E) rv (ParallelPlatesCSR_ctor' nfreqs f0 fmax gap) in
               (rv, impedance_changed)
             else
               let rv := deref_add (add_assign K E) rv (FreeSpaceCSR_ctor' nfreqs f0 fmax) in
@@ -124,4 +135,4 @@ Definition makeImpedance_with (K : Fld) (E : Leaves K)
   rv.
 
 Definition makeImpedance (K : Fld) (E : Leaves K) : Z -> K -> K -> K -> K -> bool -> K -> K -> K -> option (list (cpx K)) -> option (list (cpx K)) :=
-  makeImpedance_with K E (l_PP E) (FreeSpaceCSR_ctor K E) (ResistiveWall_ctor K E) (CollimatorImpedance_ctor K E).
+  makeImpedance_with K E (ParallelPlatesCSR_ctor K E) (FreeSpaceCSR_ctor K E) (ResistiveWall_ctor K E) (CollimatorImpedance_ctor K E).
